@@ -260,6 +260,29 @@ fn structured(out: &mut Vec<(Vec<u8>, u32, u32, String)>) {
             out.push((b, (v.unsigned_abs() % 6) as u32, 0, format!("structured-dctselect{v}-{}x{}", size.0, size.1)));
         }
     }
+    // Modular frames with one LZ77 copy whose distance value takes every value around the special-code table (0..=130) and
+    // the window limits, for three distance multipliers (channel widths) and two positions
+    {
+        use jxlw::entropy::{CodeOpts, HybridCfg, Lz77};
+        let mut k = 0u32;
+        for (w, h) in [(1usize, 9usize), (5, 3), (33, 2)] {
+            for pos in [1usize, 7] {
+                for dv in (0..=130u32).chain([255, 1023, (1 << 20) - 2, (1 << 20) - 1, 1 << 20, (1 << 20) + 119, (1 << 20) + 120, 1 << 24]) {
+                    let img = ImageHeader::simple(w as u32, h as u32, true, 8);
+                    let fh = FrameHeader::modular_lossless(&img);
+                    let ch = vec![jxlw::modular::Channel::from_fn(w, h, |x, y| ((x * 7 + y * 3) % 11) as i32)];
+                    let mut spec = jxlw::frame::ModularFrameSpec::new(fh, ch);
+                    spec.code = CodeOpts { use_prefix: true, cfg: Some(HybridCfg::new(4, 1, 0)), lz77: Some(Lz77 { min_symbol: 224, min_length: 3, len_cfg: HybridCfg::new(0, 0, 0) }), ..Default::default() };
+                    spec.lz77_force = Some((pos, 3, dv));
+                    let r = std::panic::catch_unwind(std::panic::AssertUnwindSafe(|| jxlw::frame::write_codestream(&img, &Sel::default(), &[jxlw::frame::write_modular_frame(&img, &spec).bytes])));
+                    if let Ok(b) = r {
+                        out.push((b, k % 6, 0, format!("structured-lz77-{w}x{h}-pos{pos}-dist{dv}")));
+                        k += 1;
+                    }
+                }
+            }
+        }
+    }
     // container layouts of C10's box alphabet (every single box and every ordered pair, grammatical or not) through the
     // whole decoder: box-size arithmetic is checked here with overflow checks on
     {
